@@ -2,7 +2,7 @@
     commit placement; C06 splitting), the records written by [exec_step] / [exec], the rejection
     paths of [transfer], and [reagent_distribution]'s multi-dispense bound (C06). *)
 From Robo Require Import Prelude Str Wells Utils Labware Tips Records Partition Params Worklist
-  PartitionProofs.
+  PartitionProofs LabwareProofs RecordsProofs.
 From Coq Require Import Lqa Permutation.
 
 (* ------------------------------------------------------------------------------------------ *)
@@ -245,22 +245,29 @@ Proof.
   destruct (Qltb 0 v); cbn [flat_map app]; reflexivity.
 Qed.
 
-Lemma group_np a m g :
-  fold_right (fun t acc => Nat.max (length (snd t)) acc) 0 (map (mkrow a m) g)
-  = maxlen (map (mkrow a m) g).
+Lemma group_plan_eq (a : bool) (m : Q) (g : list triple) :
+  group_plan a m g =
+  (flat_map (fun p => pass_steps p (map (mkrow a m) g) ++
+               (if (1 <? maxlen (map (mkrow a m) g))%nat
+                   && (1 <? length (pass_steps p (map (mkrow a m) g)))%nat
+                   && negb (p =? maxlen (map (mkrow a m) g) - 1)%nat
+                then [Commit] else []))
+            (seq 0 (maxlen (map (mkrow a m) g)))
+   ++ (if (1 <? maxlen (map (mkrow a m) g))%nat then [Commit] else []))%list.
 Proof. reflexivity. Qed.
 
 Lemma steps_of_group a m g : steps_of (group_plan a m g) = by_p stepf (map (mkrow a m) g).
 Proof.
-  unfold group_plan. fold (mkrow a m). cbv zeta. rewrite group_np.
+  rewrite group_plan_eq.
   set (rows := map (mkrow a m) g). set (np := maxlen rows).
   rewrite steps_of_app.
   assert (E2 : steps_of (if (1 <? np)%nat then [Commit] else []) = []).
   { destruct (1 <? np)%nat; reflexivity. }
   rewrite E2, app_nil_r. unfold steps_of at 1. rewrite flat_map_flat_map. unfold by_p. fold np.
-  apply flat_map_ext. intro p. fold (steps_of (pass_steps p rows ++
+  apply flat_map_ext. intro p.
+  change (steps_of (pass_steps p rows ++
     (if (1 <? np)%nat && (1 <? length (pass_steps p rows))%nat && negb (p =? np - 1)%nat
-     then [Commit] else []))).
+     then [Commit] else [])) = row stepf rows p).
   rewrite steps_of_app, steps_of_pass.
   destruct ((1 <? np)%nat && (1 <? length (pass_steps p rows))%nat && negb (p =? np - 1)%nat);
     cbn [steps_of flat_map]; apply app_nil_r.
@@ -481,4 +488,937 @@ Proof.
   intro Hp. apply perm_trans with (flat_map (triple_steps a m) triples); [apply plan_steps_perm|].
   apply perm_trans with (flat_map (triple_steps a m) triples');
     [apply flat_map_perm_list; exact Hp|apply Permutation_sym; apply plan_steps_perm].
+Qed.
+
+(* ------------------------------------------------------------------------------------------ *)
+(** * number of steps *)
+
+Lemma length_flat_map_sum {A B} (f : A -> list B) l :
+  length (flat_map f l) = list_sum (map (fun a => length (f a)) l).
+Proof.
+  induction l as [|a r IH]; cbn [flat_map map list_sum]; [reflexivity|].
+  rewrite app_length, IH. reflexivity.
+Qed.
+
+Definition steps_for (m v : Q) : nat :=
+  if Qltb 0 v then Z.to_nat (Z.max 1 (Qceiling (v / m))) else 0%nat.
+
+Lemma triple_steps_length_split m t : 0 < m ->
+  length (triple_steps true m t) = steps_for m (snd t).
+Proof.
+  intro Hm. rewrite triple_steps_map, map_length. unfold steps_for.
+  destruct t as [[s d] v]. cbn [fst snd]. destruct (Qlt_le_dec v 0) as [Hneg|Hnn].
+  - assert (E : Qltb 0 v = false) by (apply Qltb_false_iff; lra). rewrite E.
+    cbn [vol_list]. unfold partition_volume.
+    destruct (Qeq_bool v 0) eqn:E0; [reflexivity|].
+    assert (E1 : Qltb v m = true) by (apply Qltb_true_iff; lra). rewrite E1.
+    cbn [flat_map]. rewrite E. reflexivity.
+  - rewrite (vol_list_pos true m v Hm Hnn). destruct (Qltb 0 v) eqn:E; [|reflexivity].
+    apply Qltb_true in E. cbn [vol_list].
+    destruct (partition_volume_spec v m Hm E) as (Hlen & _ & _). lia.
+Qed.
+
+Lemma triple_steps_length_nosplit m t :
+  length (triple_steps false m t) = if Qltb 0 (snd t) then 1%nat else 0%nat.
+Proof.
+  unfold triple_steps. cbn [vol_list flat_map]. destruct (Qltb 0 (snd t)); reflexivity.
+Qed.
+
+Theorem plan_step_count_split m mode triples : 0 < m ->
+  n_steps (plan true m mode triples) = list_sum (map (fun t => steps_for m (snd t)) triples).
+Proof.
+  intro Hm. rewrite n_steps_length.
+  rewrite (Permutation_length (plan_steps_perm true m mode triples)), length_flat_map_sum.
+  f_equal. apply map_ext. intro t. apply triple_steps_length_split. exact Hm.
+Qed.
+
+Theorem plan_step_count_nosplit m mode triples :
+  n_steps (plan false m mode triples) = length (filter (fun t => Qltb 0 (snd t)) triples).
+Proof.
+  rewrite n_steps_length.
+  rewrite (Permutation_length (plan_steps_perm false m mode triples)), length_flat_map_sum.
+  induction triples as [|t r IH]; [reflexivity|]. cbn [map filter].
+  change (list_sum (length (triple_steps false m t) :: map (fun a => length (triple_steps false m a)) r))
+    with (length (triple_steps false m t) + list_sum (map (fun a => length (triple_steps false m a)) r))%nat.
+  rewrite triple_steps_length_nosplit, IH. destruct (Qltb 0 (snd t)); reflexivity.
+Qed.
+
+(* ------------------------------------------------------------------------------------------ *)
+(** * the steps of one (source, destination) pair, in order *)
+
+Lemma filter_map_comm {A B} (q : B -> bool) (f : A -> B) l :
+  filter q (map f l) = map f (filter (fun a => q (f a)) l).
+Proof.
+  induction l as [|a r IH]; [reflexivity|]. cbn [map filter]. rewrite IH.
+  destruct (q (f a)); reflexivity.
+Qed.
+
+Lemma flat_map_map {A B C} (G : B -> list C) (h : A -> B) l :
+  flat_map G (map h l) = flat_map (fun a => G (h a)) l.
+Proof. induction l as [|a r IH]; [reflexivity|]. cbn [map flat_map]. rewrite IH. reflexivity. Qed.
+
+Definition row_sd (s d : string) (it : string * string * list Q) : bool :=
+  String.eqb (fst (fst it)) s && String.eqb (snd (fst it)) d.
+
+Lemma filter_cell s d p it :
+  filter (sd_eqb s d) (cell stepf p it) = if row_sd s d it then cell stepf p it else [].
+Proof.
+  unfold cell, stepf, row_sd. destruct it as [[s' d'] vs]. cbn [fst snd].
+  destruct (nth_error vs p) as [x|]; [|destruct (_ && _); reflexivity].
+  destruct (Qltb 0 x); [|destruct (_ && _); reflexivity].
+  cbn [filter]. unfold sd_eqb. cbn [fst snd]. destruct (String.eqb s' s && String.eqb d' d); reflexivity.
+Qed.
+
+Lemma group_steps_filter a m g s d :
+  filter (sd_eqb s d) (steps_of (group_plan a m g))
+  = steps_of (group_plan a m (filter (sd_eqb s d) g)).
+Proof.
+  rewrite !steps_of_group. unfold by_p at 1. rewrite filter_flat_map.
+  assert (E : forall p, filter (sd_eqb s d) (row stepf (map (mkrow a m) g) p)
+                        = flat_map (fun it => if row_sd s d it then cell stepf p it else [])
+                                   (map (mkrow a m) g)).
+  { intro p. unfold row. rewrite filter_flat_map. apply flat_map_ext. intro it. apply filter_cell. }
+  rewrite (flat_map_ext _ _ E). rewrite (by_p_filter stepf (row_sd s d)).
+  rewrite filter_map_comm. reflexivity.
+Qed.
+
+Lemma group_plan_nil a m : group_plan a m [] = [].
+Proof. reflexivity. Qed.
+
+Lemma group_steps_single a m t : steps_of (group_plan a m [t]) = triple_steps a m t.
+Proof. rewrite steps_of_group. cbn [map]. unfold mkrow. rewrite by_p_single. reflexivity. Qed.
+
+(** if the pair (s, d) is requested by exactly one triple, its steps appear in the plan in the
+    order of that triple's volume list *)
+Theorem plan_steps_of_pair a m mode triples s d t :
+  filter (sd_eqb s d) triples = [t] ->
+  filter (sd_eqb s d) (steps_of (plan a m mode triples)) = triple_steps a m t.
+Proof.
+  intro H. rewrite steps_of_plan, filter_flat_map.
+  rewrite (flat_map_ext _ _ (fun g => group_steps_filter a m g s d)).
+  rewrite <- (flat_map_map (fun g => steps_of (group_plan a m g)) (filter (sd_eqb s d))).
+  rewrite (flat_map_single (fun g => steps_of (group_plan a m g)) t).
+  - apply group_steps_single.
+  - reflexivity.
+  - rewrite concat_filter. apply Permutation_length_1_inv. rewrite <- H.
+    apply filter_perm. apply Permutation_sym. apply partition_by_column_perm.
+Qed.
+
+Lemma triple_steps_vols m s d v : 0 < m -> 0 <= v ->
+  map snd (triple_steps true m (s, d, v)) = partition_volume v m.
+Proof.
+  intros Hm Hv. rewrite triple_steps_map, map_map. cbn [fst snd]. rewrite map_id.
+  rewrite (vol_list_pos true m v Hm Hv). cbn [vol_list].
+  destruct (Qltb 0 v) eqn:E; [reflexivity|]. apply Qltb_false in E.
+  rewrite partition_volume_zero by lra. reflexivity.
+Qed.
+
+Theorem transfer_split m mode triples s d v : 0 < m -> 0 <= v ->
+  filter (sd_eqb s d) triples = [(s, d, v)] ->
+  map snd (filter (sd_eqb s d) (steps_of (plan true m mode triples))) = partition_volume v m.
+Proof.
+  intros Hm Hv H. rewrite (plan_steps_of_pair true m mode triples s d _ H).
+  apply triple_steps_vols; assumption.
+Qed.
+
+Theorem transfer_split_spec m mode triples s d v : 0 < m -> 0 < v ->
+  filter (sd_eqb s d) triples = [(s, d, v)] ->
+  let l := map snd (filter (sd_eqb s d) (steps_of (plan true m mode triples))) in
+  Z.of_nat (length l) = Z.max 1 (Qceiling (v / m)) /\
+  Forall (fun x => 0 < x /\ x <= m) l /\
+  Qsum l == v.
+Proof.
+  intros Hm Hv H l. subst l. rewrite (transfer_split m mode triples s d v Hm (Qlt_le_weak _ _ Hv) H).
+  apply partition_volume_spec; assumption.
+Qed.
+
+Theorem transfer_split_zero m mode triples s d v : 0 < m -> v == 0 ->
+  filter (sd_eqb s d) triples = [(s, d, v)] ->
+  filter (sd_eqb s d) (steps_of (plan true m mode triples)) = [].
+Proof.
+  intros Hm Hv H. rewrite (plan_steps_of_pair true m mode triples s d _ H).
+  rewrite triple_steps_map. cbn [fst snd vol_list]. rewrite partition_volume_zero by exact Hv. reflexivity.
+Qed.
+
+Theorem transfer_nosplit_pair m mode triples s d v :
+  filter (sd_eqb s d) triples = [(s, d, v)] ->
+  filter (sd_eqb s d) (steps_of (plan false m mode triples)) = if Qltb 0 v then [(s, d, v)] else [].
+Proof.
+  intro H. rewrite (plan_steps_of_pair false m mode triples s d _ H).
+  unfold triple_steps. cbn [fst snd vol_list flat_map]. apply app_nil_r.
+Qed.
+
+(* ------------------------------------------------------------------------------------------ *)
+(** * a planned step is never above max_volume *)
+
+Lemma Qgtb_false_iff a b : Qgtb a b = false <-> a <= b.
+Proof.
+  unfold Qgtb. rewrite negb_false_iff. apply Qle_bool_iff.
+Qed.
+
+Lemma Qgtb_true_iff a b : Qgtb a b = true <-> b < a.
+Proof.
+  unfold Qgtb. rewrite negb_true_iff. split.
+  - intro H. apply Qnot_le_lt. intro C. apply Qle_bool_iff in C. congruence.
+  - intro H. destruct (Qle_bool a b) eqn:E; [|reflexivity]. apply Qle_bool_iff in E. lra.
+Qed.
+
+Lemma check_volume_ok v m : 0 <= v -> v <= m -> v <= max_tecan_volume ->
+  check_volume (PV (XQ v)) (Some m) = Ok v.
+Proof.
+  intros H0 Hm Ht. unfold check_volume.
+  assert (E1 : Qltb v 0 = false) by (apply Qltb_false_iff; exact H0).
+  assert (E2 : Qgtb v max_tecan_volume = false) by (apply Qgtb_false_iff; exact Ht).
+  assert (E3 : Qgtb v m = false) by (apply Qgtb_false_iff; exact Hm).
+  rewrite E1, E2, E3. reflexivity.
+Qed.
+
+Lemma check_volume_invalid_iff v m :
+  check_volume (PV (XQ v)) (Some m) = Err EInvalidOp <-> 0 <= v /\ v <= max_tecan_volume /\ m < v.
+Proof.
+  unfold check_volume. destruct (Qltb v 0) eqn:E1.
+  { apply Qltb_true in E1. split; [discriminate|]. intros (H & _ & _). lra. }
+  apply Qltb_false in E1. destruct (Qgtb v max_tecan_volume) eqn:E2.
+  { apply Qgtb_true_iff in E2. split; [discriminate|]. intros (_ & H & _). lra. }
+  apply Qgtb_false_iff in E2. destruct (Qgtb v m) eqn:E3.
+  - apply Qgtb_true_iff in E3. split; [intros _; auto|reflexivity].
+  - apply Qgtb_false_iff in E3. split; [discriminate|]. intros (_ & _ & H). lra.
+Qed.
+
+Theorem plan_never_refused m mode triples s d v : 0 < m ->
+  In (Step s d v) (plan true m mode triples) ->
+  check_volume (PV (XQ v)) (Some m) <> Err EInvalidOp /\
+  (m <= max_tecan_volume -> check_volume (PV (XQ v)) (Some m) = Ok v).
+Proof.
+  intros Hm H. destruct (plan_steps_positive true m mode triples s d v Hm H) as (Hpos & Hle & _).
+  specialize (Hle eq_refl). split.
+  - intro C. apply check_volume_invalid_iff in C. lra.
+  - intro Hmax. apply check_volume_ok; lra.
+Qed.
+
+(* ------------------------------------------------------------------------------------------ *)
+(** * where the commits are *)
+
+Definition is_split (a : bool) (m : Q) (t : triple) : Prop := (2 <= length (vol_list a m (snd t)))%nat.
+
+Lemma pass_steps_no_commit p rows : ~ In Commit (pass_steps p rows).
+Proof.
+  unfold pass_steps. rewrite in_flat_map. intros (it & _ & H).
+  destruct (nth_error (snd it) p) as [x|]; [|destruct H].
+  destruct (Qltb 0 x); [|destruct H]. destruct H as [H|[]]. discriminate.
+Qed.
+
+Lemma maxlen_gt {T V} (l : list (T * list V)) k :
+  (k < maxlen l)%nat <-> exists it, In it l /\ (k < length (snd it))%nat.
+Proof.
+  induction l as [|it r IH].
+  - cbn [maxlen fold_right]. split; [lia|]. intros (it & [] & _).
+  - cbn [maxlen fold_right]. fold (maxlen r). split.
+    + intro H. destruct (Nat.lt_ge_cases k (length (snd it))) as [H1|H1].
+      * exists it. split; [left; reflexivity|exact H1].
+      * assert (H2 : (k < maxlen r)%nat) by lia. apply IH in H2. destruct H2 as (it' & Hin & Hl).
+        exists it'. split; [right; exact Hin|exact Hl].
+    + intros (it' & [E|Hin] & Hl).
+      * subst it'. lia.
+      * assert (H2 : (k < maxlen r)%nat) by (apply IH; exists it'; auto). lia.
+Qed.
+
+Lemma group_np_split a m g :
+  (1 < maxlen (map (mkrow a m) g))%nat <-> exists t, In t g /\ is_split a m t.
+Proof.
+  rewrite maxlen_gt. split.
+  - intros (it & Hin & Hl). apply in_map_iff in Hin. destruct Hin as (t & <- & Hin).
+    exists t. split; [exact Hin|]. unfold is_split. cbn [mkrow snd] in Hl. lia.
+  - intros (t & Hin & Hs). exists (mkrow a m t). split; [apply in_map; exact Hin|].
+    unfold is_split in Hs. cbn [mkrow snd]. lia.
+Qed.
+
+Theorem group_commit_iff a m g :
+  In Commit (group_plan a m g) <-> exists t, In t g /\ is_split a m t.
+Proof.
+  rewrite <- group_np_split, group_plan_eq.
+  set (rows := map (mkrow a m) g). set (np := maxlen rows). split.
+  - intro H. destruct (Nat.ltb_spec 1 np) as [Hnp|Hnp]; [exact Hnp|exfalso].
+    rewrite app_nil_r in H. apply in_flat_map in H. destruct H as (p & _ & H).
+    cbn [andb app] in H. rewrite app_nil_r in H. exact (pass_steps_no_commit p rows H).
+  - intro H. apply in_or_app. right. apply Nat.ltb_lt in H. rewrite H. left. reflexivity.
+Qed.
+
+Theorem group_commit_last a m g :
+  (exists t, In t g /\ is_split a m t) -> exists l, group_plan a m g = (l ++ [Commit])%list.
+Proof.
+  intro H. apply group_np_split in H. rewrite group_plan_eq. apply Nat.ltb_lt in H. rewrite H.
+  eexists. reflexivity.
+Qed.
+
+Lemma in_groups_iff mode triples t :
+  (exists g, In g (partition_by_column mode triples) /\ In t g) <-> In t triples.
+Proof.
+  split.
+  - intros (g & Hg & Ht). apply (Permutation_in _ (partition_by_column_perm mode triples)).
+    apply in_concat. exists g. auto.
+  - intro H. apply (Permutation_in _ (Permutation_sym (partition_by_column_perm mode triples))) in H.
+    apply in_concat in H. destruct H as (g & Hg & Ht). exists g. auto.
+Qed.
+
+Theorem plan_commit_iff a m mode triples :
+  In Commit (plan a m mode triples) <-> exists t, In t triples /\ is_split a m t.
+Proof.
+  unfold plan. rewrite in_flat_map. split.
+  - intros (g & Hg & H). apply group_commit_iff in H. destruct H as (t & Ht & Hs).
+    exists t. split; [|exact Hs]. apply (in_groups_iff mode triples t). exists g. auto.
+  - intros (t & Ht & Hs). apply (in_groups_iff mode triples t) in Ht. destruct Ht as (g & Hg & Ht).
+    exists g. split; [exact Hg|]. apply group_commit_iff. exists t. auto.
+Qed.
+
+Theorem plan_no_commit_nosplit m mode triples : ~ In Commit (plan false m mode triples).
+Proof.
+  rewrite plan_commit_iff. intros (t & _ & Hs). unfold is_split in Hs. cbn [vol_list length] in Hs. lia.
+Qed.
+
+(** with auto_split a non-negative volume is split iff it exceeds max_volume *)
+Theorem is_split_iff m t : 0 < m -> 0 <= snd t -> (is_split true m t <-> m < snd t).
+Proof.
+  intros Hm Hv. unfold is_split. cbn [vol_list]. destruct t as [[s d] v]. cbn [snd] in *.
+  destruct (Qlt_le_dec 0 v) as [Hpos|Hz].
+  - destruct (partition_volume_spec v m Hm Hpos) as (Hlen & _ & _).
+    pose proof (ceil_lo (v / m)) as Hlo. pose proof (ceil_hi (v / m)) as Hhi.
+    assert (Hvm : v == (v / m) * m) by (field; lra).
+    split.
+    + intro H. assert (Hc : (2 <= Qceiling (v / m))%Z) by lia.
+      rewrite Zle_Qle in Hc. change (inject_Z 2) with 2 in Hc. nra.
+    + intro H. assert (Hq : 1 < v / m) by (apply Qlt_shift_div_l; lra).
+      assert (Hc : 1 < inject_Z (Qceiling (v / m))) by lra.
+      change 1 with (inject_Z 1) in Hc. rewrite <- Zlt_Qlt in Hc. lia.
+  - rewrite partition_volume_zero by lra. cbn [length]. split; [lia|intro H; lra].
+Qed.
+
+(** the steps of one group plan all stem from that group *)
+Theorem group_step_origin a m g s d v :
+  In (Step s d v) (group_plan a m g) <->
+  exists v0, In (s, d, v0) g /\ In v (vol_list a m v0) /\ 0 < v.
+Proof.
+  rewrite steps_of_In. split.
+  - intro H. apply (Permutation_in _ (group_steps_perm a m g)) in H.
+    apply in_flat_map in H. destruct H as ([[s0 d0] v0] & Hin & Hst).
+    apply triple_steps_In in Hst. cbn [fst snd] in Hst. destruct Hst as (-> & -> & Hv & Hpos).
+    exists v0. auto.
+  - intros (v0 & Hin & Hv & Hpos).
+    apply (Permutation_in _ (Permutation_sym (group_steps_perm a m g))).
+    apply in_flat_map. exists (s, d, v0). split; [exact Hin|].
+    apply triple_steps_In. cbn [fst snd]. auto.
+Qed.
+
+(* ------------------------------------------------------------------------------------------ *)
+(** * records written by one aspirate / dispense / tip action *)
+
+Definition same_cfg (w w' : wstate) : Prop :=
+  w_max w' = w_max w /\ w_autosplit w' = w_autosplit w /\ w_diti w' = w_diti w /\ w_dev w' = w_dev w.
+
+Lemma same_cfg_refl w : same_cfg w w.
+Proof. repeat split. Qed.
+Lemma same_cfg_emit w rs : same_cfg w (emit w rs).
+Proof. repeat split. Qed.
+Lemma same_cfg_trans w1 w2 w3 : same_cfg w1 w2 -> same_cfg w2 w3 -> same_cfg w1 w3.
+Proof. intros (A1 & A2 & A3 & A4) (B1 & B2 & B3 & B4). repeat split; congruence. Qed.
+
+(** name and geometry of every labware of the state *)
+Definition lw_frames (s : state) : list (string * geom) :=
+  map (fun L => (lw_name L, lw_geom L)) (st_lw s).
+
+Lemma upd_map_same {A B} (f : A -> B) x y : forall l k,
+  nth_error l k = Some y -> f x = f y -> map f (upd l k x) = map f l.
+Proof.
+  induction l as [|z r IH]; intros [|k] H E; cbn [nth_error upd map] in *; try discriminate.
+  - injection H as ->. rewrite E. reflexivity.
+  - rewrite (IH k H E). reflexivity.
+Qed.
+
+Lemma nth_error_upd_same {A} (x y : A) : forall l k,
+  nth_error l k = Some y -> nth_error (upd l k x) k = Some x.
+Proof.
+  induction l as [|z r IH]; intros [|k] H; cbn [nth_error upd] in *; try discriminate;
+    [reflexivity|exact (IH k H)].
+Qed.
+
+Lemma frames_set_lw s k L L' :
+  nth_error (st_lw s) k = Some L -> lw_name L' = lw_name L -> lw_geom L' = lw_geom L ->
+  lw_frames (set_lw s k L') = lw_frames s.
+Proof.
+  intros H Hn Hg. unfold lw_frames, set_lw. cbn [st_lw].
+  apply (upd_map_same _ L' L); [exact H|]. rewrite Hn, Hg. reflexivity.
+Qed.
+
+Lemma frames_nth s s' k L' :
+  lw_frames s' = lw_frames s -> nth_error (st_lw s') k = Some L' ->
+  exists L, nth_error (st_lw s) k = Some L /\ lw_name L' = lw_name L /\ lw_geom L' = lw_geom L.
+Proof.
+  intros HF H. unfold lw_frames in HF.
+  assert (E : nth_error (map (fun L => (lw_name L, lw_geom L)) (st_lw s')) k
+              = nth_error (map (fun L => (lw_name L, lw_geom L)) (st_lw s)) k) by (rewrite HF; reflexivity).
+  rewrite !nth_error_map, H in E. cbn [option_map] in E.
+  destruct (nth_error (st_lw s) k) as [L|]; cbn [option_map] in E; [|discriminate].
+  injection E as En Eg. exists L. auto.
+Qed.
+
+Lemma remove_name_geom L wells vols label L' e :
+  remove L wells vols label = (L', e) -> lw_name L' = lw_name L /\ lw_geom L' = lw_geom L.
+Proof.
+  unfold remove. intro H. destruct (prep_wells_vols wells vols) as [wv|e0].
+  - destruct (remove_loop L wv) as [L1 oe] eqn:El. apply remove_loop_run, rem_run_frame in El.
+    destruct El as (En & Eg & _).
+    destruct oe as [e1|]; injection H as <- _; [auto|]. unfold log. cbn [lw_name lw_geom set_hist]. auto.
+  - injection H as <- _. auto.
+Qed.
+
+Lemma add_name_geom L wells vols label comps L' e :
+  add L wells vols label comps = (L', e) -> lw_name L' = lw_name L /\ lw_geom L' = lw_geom L.
+Proof.
+  unfold add. intro H. destruct (prep_wells_vols wells vols) as [wv|e0].
+  - match type of H with context [negb ?b] => destruct b end; cbn [negb] in H.
+    + match type of H with context [add_loop L ?it] => destruct (add_loop L it) as [L1 oe] eqn:El end.
+      apply add_loop_run, add_run_frame in El. destruct El as (En & Eg & _).
+      destruct oe as [e1|]; injection H as <- _; [auto|]. unfold log. cbn [lw_name lw_geom set_hist]. auto.
+    + injection H as <- _. auto.
+  - injection H as <- _. auto.
+Qed.
+
+(** pass-through fields of a record, as given by the keyword arguments *)
+Definition kw_fields (k : kwargs) (f : adfields) : Prop :=
+  k_liquid_class k = PStr (ad_liquid_class f) /\ tip_mask (k_tip k) = Ok (ad_tip f) /\
+  k_rack_id k = PStr (ad_rack_id f) /\ k_tube_id k = PStr (ad_tube_id f) /\
+  k_rack_type k = PStr (ad_rack_type f) /\ k_forced k = PStr (ad_forced_rack_type f).
+
+Lemma kw_fields_agree k f f' : kw_fields k f -> kw_fields k f' ->
+  ad_liquid_class f' = ad_liquid_class f /\ ad_tip f' = ad_tip f.
+Proof.
+  intros (A1 & A2 & _) (B1 & B2 & _). rewrite A1 in B1. rewrite A2 in B2.
+  injection B1 as B1. injection B2 as B2. auto.
+Qed.
+
+Lemma text_ok_inv b t x : text_ok b t = Some x -> t = PStr x.
+Proof.
+  unfold text_ok. destruct t as [y|]; [|discriminate].
+  destruct (contains_char semi y); [discriminate|].
+  destruct (b && (32 <? String.length y)%nat); [discriminate|]. intro H. injection H as ->. reflexivity.
+Qed.
+
+Lemma check_volume_ok_inv v m q : check_volume (PV (XQ v)) (Some m) = Ok q ->
+  q = v /\ 0 <= v /\ v <= max_tecan_volume /\ v <= m.
+Proof.
+  unfold check_volume. destruct (Qltb v 0) eqn:E1; [discriminate|].
+  destruct (Qgtb v max_tecan_volume) eqn:E2; [discriminate|].
+  destruct (Qgtb v m) eqn:E3; [discriminate|]. intro H. injection H as <-.
+  apply Qltb_false in E1. apply Qgtb_false_iff in E2. apply Qgtb_false_iff in E3. auto.
+Qed.
+
+Lemma prepare_ad_inv name pos v k mx f :
+  prepare_ad (ad_of_kw name pos v k) (Some mx) = Ok f ->
+  ad_rack_label f = name /\ ad_position f = Z.of_nat pos /\ ad_volume f = v /\ kw_fields k f /\
+  0 <= v /\ v <= mx /\ v <= max_tecan_volume.
+Proof.
+  unfold prepare_ad, ad_of_kw.
+  cbn [x_rack_label x_position x_volume x_liquid_class x_tip x_rack_id x_tube_id x_rack_type x_forced].
+  intro H.
+  destruct (text_ok true (PStr name)) as [label|] eqn:E1; [|discriminate].
+  apply text_ok_inv in E1. injection E1 as E1.
+  destruct (check_position (PInt (Z.of_nat pos))) as [p|ep] eqn:E2; [|discriminate].
+  unfold check_position in E2. destruct (Z.of_nat pos <? 0)%Z; [discriminate|]. injection E2 as E2.
+  destruct (check_volume (PV (XQ v)) (Some mx)) as [q|ev] eqn:E3; [|discriminate].
+  apply check_volume_ok_inv in E3. destruct E3 as (-> & H0 & Ht & Hm).
+  destruct (text_ok false (k_liquid_class k)) as [lc|] eqn:E4; [|discriminate]. apply text_ok_inv in E4.
+  destruct (tip_mask (k_tip k)) as [mask|et] eqn:E5; [|discriminate].
+  destruct (text_ok true (k_rack_id k)) as [rid|] eqn:E6; [|discriminate]. apply text_ok_inv in E6.
+  destruct (text_ok false (k_tube_id k)) as [tid|] eqn:E7; [|discriminate]. apply text_ok_inv in E7.
+  destruct (text_ok true (k_rack_type k)) as [rty|] eqn:E8; [|discriminate]. apply text_ok_inv in E8.
+  destruct (text_ok true (k_forced k)) as [frt|] eqn:E9; [|discriminate]. apply text_ok_inv in E9.
+  injection H as <-. unfold kw_fields.
+  cbn [ad_rack_label ad_position ad_volume ad_liquid_class ad_tip ad_rack_id ad_tube_id ad_rack_type
+       ad_forced_rack_type].
+  repeat split; auto.
+Qed.
+
+(** the record loop for one well with a positive volume *)
+Lemma emit_one asp w L well v kw : 0 < v ->
+  emit_wells asp w L [(well, XQ v)] kw =
+  match device_position (w_dev w) (lw_geom L) well with
+  | Err e => (w, Some e)
+  | Ok pos =>
+      match prepare_ad (ad_of_kw (lw_name L) pos v kw) (Some (w_max w)) with
+      | Ok f => (emit w [if asp then RA f else RD f], None)
+      | Err e => (w, Some e)
+      end
+  end.
+Proof.
+  intro Hv. apply Qltb_true_iff in Hv. cbn [emit_wells xpos xq]. rewrite Hv.
+  destruct (device_position (w_dev w) (lw_geom L) well) as [pos|e]; [|reflexivity].
+  destruct asp; [unfold aspirate_well|unfold dispense_well];
+    destruct (prepare_ad (ad_of_kw (lw_name L) pos v kw) (Some (w_max w))) as [f|e]; reflexivity.
+Qed.
+
+Lemma aspirate_single s k well v kw s1 e : 0 < v ->
+  aspirate s k (A0 well) (A0 (XQ v)) None kw = (s1, e) ->
+  lw_frames s1 = lw_frames s /\
+  match e with
+  | Some _ => st_wl s1 = st_wl s
+  | None => exists L pos f,
+      nth_error (st_lw s) k = Some L /\
+      device_position (w_dev (st_wl s)) (lw_geom L) well = Ok pos /\
+      prepare_ad (ad_of_kw (lw_name L) pos v kw) (Some (w_max (st_wl s))) = Ok f /\
+      st_wl s1 = emit (st_wl s) [RA f]
+  end.
+Proof.
+  intros Hv H. unfold aspirate in H.
+  destruct (nth_error (st_lw s) k) as [L|] eqn:Ek.
+  2:{ injection H as <- <-. auto. }
+  cbn [wells_vols flattenF broadcast length repeat] in H.
+  destruct (remove L (A1 [well]) (A1 [XQ v]) None) as [L' oe] eqn:Er.
+  destruct (remove_name_geom _ _ _ _ _ _ Er) as [En Eg].
+  pose proof (frames_set_lw s k L L' Ek En Eg) as HF.
+  destruct oe as [e1|].
+  { injection H as <- <-. auto. }
+  cbn [comment set_lw st_wl set_wl zip] in H. rewrite (emit_one true _ _ _ _ _ Hv) in H.
+  rewrite Eg, En in H.
+  destruct (device_position (w_dev (st_wl s)) (lw_geom L) well) as [pos|e2] eqn:Ep.
+  2:{ injection H as <- <-. auto. }
+  destruct (prepare_ad (ad_of_kw (lw_name L) pos v kw) (Some (w_max (st_wl s)))) as [f|e3] eqn:Ef.
+  2:{ injection H as <- <-. auto. }
+  injection H as <- <-. split; [exact HF|]. exists L, pos, f. auto.
+Qed.
+
+Lemma dispense_single s k well v comps kw s1 e : 0 < v ->
+  dispense s k (A0 well) (A0 (XQ v)) None comps kw = (s1, e) ->
+  lw_frames s1 = lw_frames s /\
+  match e with
+  | Some _ => st_wl s1 = st_wl s
+  | None => exists L pos f,
+      nth_error (st_lw s) k = Some L /\
+      device_position (w_dev (st_wl s)) (lw_geom L) well = Ok pos /\
+      prepare_ad (ad_of_kw (lw_name L) pos v kw) (Some (w_max (st_wl s))) = Ok f /\
+      st_wl s1 = emit (st_wl s) [RD f]
+  end.
+Proof.
+  intros Hv H. unfold dispense in H.
+  destruct (nth_error (st_lw s) k) as [L|] eqn:Ek.
+  2:{ injection H as <- <-. auto. }
+  cbn [wells_vols flattenF broadcast length repeat] in H.
+  destruct (add L (A1 [well]) (A1 [XQ v]) None comps) as [L' oe] eqn:Er.
+  destruct (add_name_geom _ _ _ _ _ _ _ Er) as [En Eg].
+  pose proof (frames_set_lw s k L L' Ek En Eg) as HF.
+  destruct oe as [e1|].
+  { injection H as <- <-. auto. }
+  cbn [comment set_lw st_wl set_wl zip] in H. rewrite (emit_one false _ _ _ _ _ Hv) in H.
+  rewrite Eg, En in H.
+  destruct (device_position (w_dev (st_wl s)) (lw_geom L) well) as [pos|e2] eqn:Ep.
+  2:{ injection H as <- <-. auto. }
+  destruct (prepare_ad (ad_of_kw (lw_name L) pos v kw) (Some (w_max (st_wl s)))) as [f|e3] eqn:Ef.
+  2:{ injection H as <- <-. auto. }
+  injection H as <- <-. split; [exact HF|]. exists L, pos, f. auto.
+Qed.
+
+(** the records of the tip action *)
+Definition tip_spec (diti : bool) (dev : device) (ws : scheme) (tip : list srec) : Prop :=
+  match ws with
+  | SReuse => tip = []
+  | SFlush => tip = [RF]
+  | SNone => tip = match dev with Fluent => [RF] | _ => [] end
+  | SInt z => if diti then tip = [RW None]
+              else (1 <= z <= 4)%Z /\ tip = [RW (Some (Z.to_nat z))]
+  | SOther => diti = true /\ tip = [RW None]
+  end.
+
+Lemma emit_nil w : emit w [] = w.
+Proof. unfold emit. rewrite app_nil_r. destruct w; reflexivity. Qed.
+
+Lemma tip_action_spec w ws w' e : tip_action w ws = (w', e) ->
+  match e with
+  | None => exists tip, w' = emit w tip /\ tip_spec (w_diti w) (w_dev w) ws tip
+  | Some _ => w' = w
+  end.
+Proof.
+  unfold tip_action, wash, flush. intro H. destruct ws as [z| | | |]; cbn [tip_spec].
+  - destruct (w_diti w).
+    + injection H as <- <-. exists [RW None]. auto.
+    + destruct ((1 <=? z)%Z && (z <=? 4)%Z) eqn:E; injection H as <- <-; [|reflexivity].
+      apply andb_true_iff in E. destruct E as [E1 E2].
+      apply Z.leb_le in E1. apply Z.leb_le in E2. exists [RW (Some (Z.to_nat z))]. auto.
+  - injection H as <- <-. exists [RF]. auto.
+  - injection H as <- <-. exists []. rewrite emit_nil. auto.
+  - destruct (w_dev w); injection H as <- <-; eexists; (split; [|reflexivity]);
+      try reflexivity; symmetry; apply emit_nil.
+  - destruct (w_diti w); injection H as <- <-; [|reflexivity]. exists [RW None]. auto.
+Qed.
+
+(* ------------------------------------------------------------------------------------------ *)
+(** * one executed step *)
+
+Definition pair_records (Ls Ld : labware) (w : wstate) (sw dw : string) (v : Q) (ws : scheme)
+    (kw : kwargs) (rs : list srec) : Prop :=
+  exists pa pd fa fd tip,
+    rs = ([RA fa; RD fd] ++ tip)%list /\
+    device_position (w_dev w) (lw_geom Ls) sw = Ok pa /\
+    device_position (w_dev w) (lw_geom Ld) dw = Ok pd /\
+    ad_rack_label fa = lw_name Ls /\ ad_position fa = Z.of_nat pa /\
+    ad_rack_label fd = lw_name Ld /\ ad_position fd = Z.of_nat pd /\
+    ad_volume fa = v /\ ad_volume fd = v /\
+    ad_liquid_class fd = ad_liquid_class fa /\ ad_tip fd = ad_tip fa /\
+    kw_fields kw fa /\ kw_fields kw fd /\
+    v <= w_max w /\
+    tip_spec (w_diti w) (w_dev w) ws tip.
+
+(** what can have been written when a step fails *)
+Definition step_prefix (v : Q) (rs : list srec) : Prop :=
+  rs = [] \/
+  (exists fa, rs = [RA fa] /\ ad_volume fa = v) \/
+  (exists fa fd, rs = [RA fa; RD fd] /\ ad_volume fa = v /\ ad_volume fd = v /\
+                 ad_liquid_class fd = ad_liquid_class fa /\ ad_tip fd = ad_tip fa).
+
+Lemma pair_records_ext Ls Ld w Ls' Ld' w' sw dw v ws kw rs :
+  lw_name Ls' = lw_name Ls -> lw_geom Ls' = lw_geom Ls ->
+  lw_name Ld' = lw_name Ld -> lw_geom Ld' = lw_geom Ld -> same_cfg w w' ->
+  pair_records Ls Ld w sw dw v ws kw rs -> pair_records Ls' Ld' w' sw dw v ws kw rs.
+Proof.
+  intros E1 E2 E3 E4 (C1 & C2 & C3 & C4). unfold pair_records. rewrite E1, E2, E3, E4, C1, C3, C4.
+  exact (fun H => H).
+Qed.
+
+Theorem exec_step_records s ks kd sw dw v ws kw s' e : 0 < v ->
+  exec_step s ks kd sw dw v ws kw = (s', e) ->
+  lw_frames s' = lw_frames s /\ same_cfg (st_wl s) (st_wl s') /\
+  exists rs, w_recs (st_wl s') = (w_recs (st_wl s) ++ rs)%list /\
+    match e with
+    | None => exists Ls Ld, nth_error (st_lw s) ks = Some Ls /\ nth_error (st_lw s) kd = Some Ld /\
+                            pair_records Ls Ld (st_wl s) sw dw v ws kw rs
+    | Some _ => step_prefix v rs
+    end.
+Proof.
+  intros Hv H. unfold exec_step in H.
+  destruct (aspirate s ks (A0 sw) (A0 (XQ v)) None kw) as [s1 oe1] eqn:Ea.
+  destruct (aspirate_single _ _ _ _ _ _ _ Hv Ea) as [HF1 HA].
+  destruct oe1 as [e1|].
+  { injection H as <- <-. rewrite HA. split; [exact HF1|]. split; [apply same_cfg_refl|].
+    exists []. rewrite app_nil_r. split; [reflexivity|left; reflexivity]. }
+  destruct HA as (Ls & pa & fa & Eks & Epa & Efa & Ew1).
+  destruct (prepare_ad_inv _ _ _ _ _ _ Efa) as (Fa1 & Fa2 & Fa3 & Fa4 & Fa5 & Fa6 & _).
+  assert (HP1 : step_prefix v [RA fa]) by (right; left; exists fa; auto).
+  assert (HC1 : same_cfg (st_wl s) (st_wl s1)) by (rewrite Ew1; apply same_cfg_emit).
+  assert (HR1 : w_recs (st_wl s1) = (w_recs (st_wl s) ++ [RA fa])%list) by (rewrite Ew1; reflexivity).
+  destruct (nth_error (st_lw s1) ks) as [Ls1|].
+  2:{ injection H as <- <-. split; [exact HF1|]. split; [exact HC1|]. exists [RA fa]. auto. }
+  destruct (get_well_composition Ls1 sw) as [c|e2].
+  2:{ injection H as <- <-. split; [exact HF1|]. split; [exact HC1|]. exists [RA fa]. auto. }
+  destruct (dispense s1 kd (A0 dw) (A0 (XQ v)) None (Some [Some c]) kw) as [s2 oe3] eqn:Ed.
+  destruct (dispense_single _ _ _ _ _ _ _ _ Hv Ed) as [HF2 HD].
+  destruct oe3 as [e3|].
+  { injection H as <- <-. rewrite HD. split; [congruence|]. split; [exact HC1|]. exists [RA fa]. auto. }
+  destruct HD as (Ld1 & pd & fd & Ekd & Epd & Efd & Ew2).
+  destruct (frames_nth s s1 kd Ld1 HF1 Ekd) as (Ld & Ekd0 & Edn & Edg).
+  destruct HC1 as (C1 & C2 & C3 & C4). rewrite C1 in Efd. rewrite C4, Edg in Epd. rewrite Edn in Efd.
+  destruct (prepare_ad_inv _ _ _ _ _ _ Efd) as (Fd1 & Fd2 & Fd3 & Fd4 & _).
+  destruct (kw_fields_agree kw fa fd Fa4 Fd4) as [Elc Etip].
+  assert (HC2 : same_cfg (st_wl s) (st_wl s2)).
+  { rewrite Ew2. apply same_cfg_trans with (st_wl s1); [repeat split; assumption|apply same_cfg_emit]. }
+  assert (HR2 : w_recs (st_wl s2) = (w_recs (st_wl s) ++ [RA fa; RD fd])%list).
+  { rewrite Ew2. cbn [emit w_recs]. rewrite HR1, <- app_assoc. reflexivity. }
+  destruct (tip_action (st_wl s2) ws) as [w3 oe4] eqn:Et.
+  apply tip_action_spec in Et. injection H as <- <-. cbn [set_wl st_wl].
+  split; [unfold lw_frames in *; cbn [st_lw set_wl]; congruence|].
+  destruct oe4 as [e4|].
+  - subst w3. split; [exact HC2|]. exists [RA fa; RD fd]. split; [exact HR2|].
+    right; right. exists fa, fd. repeat split; auto.
+  - destruct Et as (tip & -> & Hts). destruct HC2 as (D1 & D2 & D3 & D4).
+    split; [repeat split; assumption|].
+    exists ([RA fa; RD fd] ++ tip)%list. split.
+    + cbn [emit w_recs]. rewrite HR2, <- app_assoc. reflexivity.
+    + exists Ls, Ld. split; [exact Eks|]. split; [exact Ekd0|].
+      rewrite D3, D4 in Hts.
+      exists pa, pd, fa, fd, tip. repeat split; auto; first [apply Fa4 | apply Fd4].
+Qed.
+
+(* ------------------------------------------------------------------------------------------ *)
+(** * a run of actions *)
+
+Lemma same_cfg_sym w w' : same_cfg w w' -> same_cfg w' w.
+Proof. intros (A1 & A2 & A3 & A4). repeat split; congruence. Qed.
+
+Definition act_records (s : state) (ks kd : nat) (ws : scheme) (kw : kwargs) (a : action)
+    (rs : list srec) : Prop :=
+  match a with
+  | Commit => rs = [RB]
+  | Step sw dw v =>
+      exists Ls Ld, nth_error (st_lw s) ks = Some Ls /\ nth_error (st_lw s) kd = Some Ld /\
+                    pair_records Ls Ld (st_wl s) sw dw v ws kw rs
+  end.
+
+Lemma act_records_ext s s1 ks kd ws kw a rs :
+  lw_frames s1 = lw_frames s -> same_cfg (st_wl s) (st_wl s1) ->
+  act_records s1 ks kd ws kw a rs -> act_records s ks kd ws kw a rs.
+Proof.
+  intros HF HC. destruct a as [sw dw v|]; cbn [act_records]; [|exact (fun H => H)].
+  intros (Ls1 & Ld1 & Hs & Hd & HP).
+  destruct (frames_nth s s1 ks Ls1 HF Hs) as (Ls & Hs0 & Esn & Esg).
+  destruct (frames_nth s s1 kd Ld1 HF Hd) as (Ld & Hd0 & Edn & Edg).
+  exists Ls, Ld. split; [exact Hs0|]. split; [exact Hd0|].
+  apply (pair_records_ext Ls1 Ld1 (st_wl s1)); try congruence. apply same_cfg_sym. exact HC.
+Qed.
+
+Lemma Forall2_weaken {A B} (R1 R2 : A -> B -> Prop) l1 l2 :
+  (forall a b, R1 a b -> R2 a b) -> Forall2 R1 l1 l2 -> Forall2 R2 l1 l2.
+Proof. intros H HF. induction HF as [|a b r1 r2 Hab Hr IH]; constructor; auto. Qed.
+
+Theorem exec_records acts : forall s ks kd ws kw s',
+  (forall sw dw v, In (Step sw dw v) acts -> 0 < v) ->
+  exec s ks kd acts ws kw = (s', None) ->
+  lw_frames s' = lw_frames s /\ same_cfg (st_wl s) (st_wl s') /\
+  exists rss, w_recs (st_wl s') = (w_recs (st_wl s) ++ concat rss)%list /\
+              Forall2 (act_records s ks kd ws kw) acts rss.
+Proof.
+  induction acts as [|a rest IH]; intros s ks kd ws kw s' Hpos H; cbn [exec] in H.
+  - injection H as <-. split; [reflexivity|]. split; [apply same_cfg_refl|].
+    exists []. cbn [concat]. rewrite app_nil_r. split; [reflexivity|constructor].
+  - assert (Hpos' : forall sw dw v, In (Step sw dw v) rest -> 0 < v).
+    { intros sw dw v Hin. apply (Hpos sw dw v). right. exact Hin. }
+    destruct a as [sw dw v|].
+    + destruct (exec_step s ks kd sw dw v ws kw) as [s1 oe] eqn:Es.
+      assert (Hv : 0 < v) by (apply (Hpos sw dw v); left; reflexivity).
+      destruct (exec_step_records _ _ _ _ _ _ _ _ _ _ Hv Es) as (HF1 & HC1 & rs & HR1 & Hact).
+      destruct oe as [e|]; [discriminate|].
+      destruct (IH s1 ks kd ws kw s' Hpos' H) as (HF2 & HC2 & rss & HR2 & Hall).
+      split; [congruence|]. split; [exact (same_cfg_trans _ _ _ HC1 HC2)|].
+      exists (rs :: rss). split.
+      * cbn [concat]. rewrite HR2, HR1, <- app_assoc. reflexivity.
+      * constructor; [exact Hact|].
+        apply (Forall2_weaken (act_records s1 ks kd ws kw)); [|exact Hall].
+        intros a b. apply act_records_ext; assumption.
+    + destruct (IH _ ks kd ws kw s' Hpos' H) as (HF2 & HC2 & rss & HR2 & Hall).
+      cbn [commit fst set_wl st_wl] in HC2, HR2.
+      split; [exact HF2|]. split; [exact HC2|].
+      exists ([RB] :: rss). split.
+      * cbn [concat]. rewrite HR2. cbn [emit w_recs]. rewrite <- app_assoc. reflexivity.
+      * constructor; [reflexivity|].
+        apply (Forall2_weaken (act_records (set_wl s (emit (st_wl s) [RB])) ks kd ws kw)); [|exact Hall].
+        intros a b. apply act_records_ext; [reflexivity|apply same_cfg_emit].
+Qed.
+
+(* ------------------------------------------------------------------------------------------ *)
+(** * transfer: accepted and rejected calls *)
+
+Definition t_n (swells dwells : arr string) (vols : arr Q) : nat :=
+  Nat.max (length (flattenF swells)) (Nat.max (length (flattenF dwells)) (length (flattenF vols))).
+Definition t_src (swells dwells : arr string) (vols : arr Q) : list string :=
+  broadcast (flattenF swells) (t_n swells dwells vols).
+Definition t_dst (swells dwells : arr string) (vols : arr Q) : list string :=
+  broadcast (flattenF dwells) (t_n swells dwells vols).
+Definition t_vol (swells dwells : arr string) (vols : arr Q) : list Q :=
+  broadcast (flattenF vols) (t_n swells dwells vols).
+Definition t_triples (swells dwells : arr string) (vols : arr Q) : list triple :=
+  zip (zip (t_src swells dwells vols) (t_dst swells dwells vols)) (t_vol swells dwells vols).
+
+Lemma broadcast_length {A} (l : list A) n :
+  length (broadcast l n) = if (length l =? 1)%nat then n else length l.
+Proof.
+  destruct l as [|x [|y r]]; cbn [broadcast length Nat.eqb]; [reflexivity|apply repeat_length|reflexivity].
+Qed.
+
+Lemma comment_cfg w c w' e : comment w c = (w', e) -> same_cfg w w'.
+Proof.
+  unfold comment. destruct c as [c|]; [|intro H; injection H as <- _; apply same_cfg_refl].
+  destruct (String.eqb c ""); [intro H; injection H as <- _; apply same_cfg_refl|].
+  destruct (contains_char semi c); intro H; injection H as <- _;
+    [apply same_cfg_refl|apply same_cfg_emit].
+Qed.
+
+Lemma condense_at_wl s k n label : st_wl (condense_at s k n label) = st_wl s.
+Proof. unfold condense_at. destruct (nth_error (st_lw s) k); reflexivity. Qed.
+
+Lemma plan_steps_pos a m mode triples sw dw v : In (Step sw dw v) (plan a m mode triples) -> 0 < v.
+Proof. intro H. apply plan_step_origin in H. destruct H as (v0 & _ & _ & Hv). exact Hv. Qed.
+
+Theorem transfer_records s ks swells kd dwells vols label ws pb kw s' :
+  transfer s ks swells kd dwells vols label ws pb kw = (s', None) ->
+  exists Ls Ld mode w rss,
+    nth_error (st_lw s) ks = Some Ls /\ nth_error (st_lw s) kd = Some Ld /\
+    optimize_partition_by (is_trough (lw_geom Ls)) (is_trough (lw_geom Ld)) pb = Ok mode /\
+    comment (st_wl s) label = (w, None) /\
+    w_recs (st_wl s') = (w_recs w ++ concat rss)%list /\
+    Forall2 (act_records s ks kd ws kw)
+            (plan (w_autosplit (st_wl s)) (w_max (st_wl s)) mode (t_triples swells dwells vols)) rss.
+Proof.
+  unfold transfer. cbv zeta. fold (t_n swells dwells vols).
+  fold (t_src swells dwells vols). fold (t_dst swells dwells vols). fold (t_vol swells dwells vols).
+  fold (t_triples swells dwells vols).
+  intro H.
+  destruct (w_dev (st_wl s)) eqn:Edev; [| |discriminate].
+  all: destruct (nth_error (st_lw s) ks) as [Ls|] eqn:Eks; [|discriminate].
+  all: destruct (nth_error (st_lw s) kd) as [Ld|] eqn:Ekd; [|discriminate].
+  all: match type of H with (if ?c then _ else _) = _ => destruct c; [discriminate|] end.
+  all: match type of H with (if ?c then _ else _) = _ => destruct c; [discriminate|] end.
+  all: match type of H with (if ?c then _ else _) = _ => destruct c; [discriminate|] end.
+  all: destruct (optimize_partition_by (is_trough (lw_geom Ls)) (is_trough (lw_geom Ld)) pb)
+         as [mode|eo] eqn:Eo; [|discriminate].
+  all: destruct (comment (st_wl s) label) as [w oc] eqn:Ec.
+  all: pose proof (comment_cfg _ _ _ _ Ec) as HC.
+  all: destruct oc as [ec|]; [discriminate|].
+  all: match type of H with context [exec ?s0 ?k1 ?k2 ?acts ?w1 ?w2] =>
+         destruct (exec s0 k1 k2 acts w1 w2) as [s2 oe] eqn:Ee end.
+  all: destruct oe as [ee|]; [discriminate|].
+  all: apply exec_records in Ee; [|intros sw0 dw0 v0; apply plan_steps_pos].
+  all: destruct Ee as (HF & HC2 & rss & HR & Hall).
+  all: cbn [set_wl st_wl] in HC2, HR.
+  all: exists Ls, Ld, mode, w, rss.
+  all: split; [first [exact Eks|reflexivity]|]. all: split; [first [exact Ekd|reflexivity]|].
+  all: split; [first [exact Eo|reflexivity]|]. all: split; [first [exact Ec|reflexivity]|].
+  all: destruct HC as (C1 & C2 & C3 & C4).
+  all: split.
+  all: try (destruct (ks =? kd)%nat; injection H as <-; rewrite ?condense_at_wl; exact HR).
+  all: rewrite <- C1, <- C2.
+  all: apply (Forall2_weaken (act_records (set_wl s w) ks kd ws kw)); [|exact Hall].
+  all: intros a b; apply act_records_ext; [reflexivity|repeat split; assumption].
+Qed.
+
+Theorem transfer_compat s ks swells kd dwells vols label ws pb kw :
+  w_dev (st_wl s) = BaseDev ->
+  transfer s ks swells kd dwells vols label ws pb kw = (s, Some ECompat).
+Proof. intro H. unfold transfer. rewrite H. reflexivity. Qed.
+
+Definition bad_transfer (s : state) (ks kd : nat) (swells dwells : arr string) (vols : arr Q)
+    (pb : string) : Prop :=
+  length (t_src swells dwells vols) <> length (t_dst swells dwells vols) \/
+  length (t_dst swells dwells vols) <> length (t_vol swells dwells vols) \/
+  (exists v, In v (t_vol swells dwells vols) /\ v < 0) \/
+  (exists L w, nth_error (st_lw s) ks = Some L /\ In w (t_src swells dwells vols) /\ lw_index L w = None) \/
+  (exists L w, nth_error (st_lw s) kd = Some L /\ In w (t_dst swells dwells vols) /\ lw_index L w = None) \/
+  nth_error (st_lw s) ks = None \/ nth_error (st_lw s) kd = None \/
+  (pb <> "auto"%string /\ pb <> "source"%string /\ pb <> "destination"%string).
+
+Lemma bad_transfer_false s ks kd swells dwells vols pb Ls Ld mode :
+  nth_error (st_lw s) ks = Some Ls -> nth_error (st_lw s) kd = Some Ld ->
+  negb ((length (t_src swells dwells vols) =? length (t_dst swells dwells vols))%nat
+        && (length (t_dst swells dwells vols) =? length (t_vol swells dwells vols))%nat) = false ->
+  existsb (fun v => Qltb v 0) (t_vol swells dwells vols) = false ->
+  existsb (fun w => match lw_index Ls w with None => true | Some _ => false end)
+          (t_src swells dwells vols)
+  || existsb (fun w => match lw_index Ld w with None => true | Some _ => false end)
+             (t_dst swells dwells vols) = false ->
+  optimize_partition_by (is_trough (lw_geom Ls)) (is_trough (lw_geom Ld)) pb = Ok mode ->
+  bad_transfer s ks kd swells dwells vols pb -> False.
+Proof.
+  intros Eks Ekd E1 E2 E3 Eo Hbad.
+  apply negb_false_iff, andb_true_iff in E1. destruct E1 as [E1a E1b].
+  apply Nat.eqb_eq in E1a. apply Nat.eqb_eq in E1b.
+  apply orb_false_iff in E3. destruct E3 as [E3a E3b].
+  destruct Hbad as [B|[B|[B|[B|[B|[B|[B|B]]]]]]]; try congruence.
+  - destruct B as (v & Hin & Hneg).
+    assert (C : existsb (fun v => Qltb v 0) (t_vol swells dwells vols) = true).
+    { apply existsb_exists. exists v. split; [exact Hin|apply Qltb_true_iff; exact Hneg]. }
+    congruence.
+  - destruct B as (L & w & HL & Hin & Hidx). rewrite Eks in HL. injection HL as <-.
+    assert (C : existsb (fun w => match lw_index Ls w with None => true | Some _ => false end)
+                        (t_src swells dwells vols) = true).
+    { apply existsb_exists. exists w. split; [exact Hin|rewrite Hidx; reflexivity]. }
+    congruence.
+  - destruct B as (L & w & HL & Hin & Hidx). rewrite Ekd in HL. injection HL as <-.
+    assert (C : existsb (fun w => match lw_index Ld w with None => true | Some _ => false end)
+                        (t_dst swells dwells vols) = true).
+    { apply existsb_exists. exists w. split; [exact Hin|rewrite Hidx; reflexivity]. }
+    congruence.
+  - destruct B as (B1 & B2 & B3). rewrite (optimize_other _ _ pb B1 B2 B3) in Eo. discriminate.
+Qed.
+
+Theorem transfer_reject s ks swells kd dwells vols label ws pb kw :
+  w_dev (st_wl s) <> BaseDev -> bad_transfer s ks kd swells dwells vols pb ->
+  transfer s ks swells kd dwells vols label ws pb kw = (s, Some EReject).
+Proof.
+  intros Hdev Hbad. unfold transfer. cbv zeta. fold (t_n swells dwells vols).
+  fold (t_src swells dwells vols). fold (t_dst swells dwells vols). fold (t_vol swells dwells vols).
+  destruct (w_dev (st_wl s)) eqn:Edev; [| |congruence].
+  all: destruct (nth_error (st_lw s) ks) as [Ls|] eqn:Eks; [|reflexivity].
+  all: destruct (nth_error (st_lw s) kd) as [Ld|] eqn:Ekd; [|reflexivity].
+  all: match goal with |- (if ?c then _ else _) = _ => destruct c eqn:E1; [reflexivity|] end.
+  all: match goal with |- (if ?c then _ else _) = _ => destruct c eqn:E2; [reflexivity|] end.
+  all: match goal with |- (if ?c then _ else _) = _ => destruct c eqn:E3; [reflexivity|] end.
+  all: destruct (optimize_partition_by (is_trough (lw_geom Ls)) (is_trough (lw_geom Ld)) pb)
+         as [mode|eo] eqn:Eo; [exfalso|reflexivity].
+  all: exact (bad_transfer_false _ _ _ _ _ _ _ _ _ _ Eks Ekd E1 E2 E3 Eo Hbad).
+Qed.
+
+(* ------------------------------------------------------------------------------------------ *)
+(** * without auto_split a step above max_volume is refused *)
+
+Lemma prepare_ad_too_large a mx label pos v :
+  text_ok true (x_rack_label a) = Some label -> check_position (x_position a) = Ok pos ->
+  x_volume a = PV (XQ v) -> 0 <= v -> v <= max_tecan_volume -> mx < v ->
+  prepare_ad a (Some mx) = Err EInvalidOp.
+Proof.
+  intros H1 H2 H3 H0 Ht Hm. unfold prepare_ad. rewrite H1, H2, H3.
+  assert (E : check_volume (PV (XQ v)) (Some mx) = Err EInvalidOp).
+  { apply check_volume_invalid_iff. auto. }
+  rewrite E. reflexivity.
+Qed.
+
+Theorem aspirate_well_too_large w a label pos v :
+  text_ok true (x_rack_label a) = Some label -> check_position (x_position a) = Ok pos ->
+  x_volume a = PV (XQ v) -> 0 <= v -> v <= max_tecan_volume -> w_max w < v ->
+  aspirate_well w a = (w, Some EInvalidOp) /\ dispense_well w a = (w, Some EInvalidOp).
+Proof.
+  intros H1 H2 H3 H0 Ht Hm. unfold aspirate_well, dispense_well.
+  rewrite (prepare_ad_too_large a (w_max w) label pos v H1 H2 H3 H0 Ht Hm). auto.
+Qed.
+
+Theorem plan_nosplit_contains m mode triples s d v :
+  In (s, d, v) triples -> 0 < v -> In (Step s d v) (plan false m mode triples).
+Proof.
+  intros Hin Hv. apply plan_step_origin. exists v. split; [exact Hin|]. split; [|exact Hv].
+  left. reflexivity.
+Qed.
+
+Theorem exec_step_too_large s ks kd sw dw v ws kw L L' pos :
+  nth_error (st_lw s) ks = Some L ->
+  remove L (A1 [sw]) (A1 [XQ v]) None = (L', None) ->
+  device_position (w_dev (st_wl s)) (lw_geom L) sw = Ok pos ->
+  text_ok true (PStr (lw_name L)) = Some (lw_name L) ->
+  0 < v -> v <= max_tecan_volume -> w_max (st_wl s) < v ->
+  exec_step s ks kd sw dw v ws kw = (set_lw s ks L', Some EInvalidOp).
+Proof.
+  intros Hk Hr Hp Hn Hv Ht Hm. unfold exec_step, aspirate. rewrite Hk.
+  cbn [wells_vols flattenF broadcast length repeat]. rewrite Hr.
+  destruct (remove_name_geom _ _ _ _ _ _ Hr) as [En Eg].
+  cbn [comment set_lw st_wl set_wl zip]. rewrite (emit_one true _ _ _ _ _ Hv). rewrite Eg, En, Hp.
+  assert (E : prepare_ad (ad_of_kw (lw_name L) pos v kw) (Some (w_max (st_wl s))) = Err EInvalidOp).
+  { apply (prepare_ad_too_large _ _ (lw_name L) (Z.of_nat pos) v); cbn [ad_of_kw x_rack_label x_position x_volume];
+      try assumption; try reflexivity; [|lra].
+    unfold check_position. destruct (Z.ltb_spec (Z.of_nat pos) 0) as [C|C]; [lia|reflexivity]. }
+  rewrite E. reflexivity.
+Qed.
+
+(* ------------------------------------------------------------------------------------------ *)
+(** * reagent_distribution never plans more multi-dispenses than fit into max_volume *)
+
+(** re-export of [rc_reagent_ok] (Proofs/RecordsProofs.v), restricted to the volume and the
+    multi-dispense count *)
+Theorem reagent_distribution_multi w a w' :
+  reagent_distribution w a = (w', None) ->
+  exists f,
+    w_recs w' = (w_recs w ++ [RR f])%list /\
+    match rd_volume a with
+    | RVInt z => r_volume f = PyI z
+    | RVFloat x => exists q, x = XQ q /\ r_volume f = PyF q
+    | RVBad => False
+    end /\
+    0 <= pynum_q (r_volume f) /\ pynum_q (r_volume f) <= w_max w /\
+    inject_Z (r_multi_disp f) * pynum_q (r_volume f) <= w_max w /\
+    (inject_Z (rd_multi_disp a) * pynum_q (r_volume f) <= w_max w -> r_multi_disp f = rd_multi_disp a) /\
+    (w_max w < inject_Z (rd_multi_disp a) * pynum_q (r_volume f) ->
+       r_multi_disp f = Qfloor (w_max w / pynum_q (r_volume f)) /\
+       w_max w < inject_Z (r_multi_disp f + 1) * pynum_q (r_volume f)).
+Proof.
+  intro H. destruct (rc_reagent_ok w a w' H)
+    as (f & _ & HR & _ & _ & _ & _ & _ & _ & _ & _ & _ & _ & _ & HV & _ & _ & _ & Hfit & Hnot
+          & _ & _ & _ & _ & _ & _ & H0 & _ & Hmax & _).
+  exists f. split; [exact HR|]. split; [exact HV|]. split; [exact H0|]. split; [exact Hmax|].
+  split; [|split; [exact Hfit|]].
+  - destruct (Qlt_le_dec (w_max w) (inject_Z (rd_multi_disp a) * pynum_q (r_volume f))) as [Hbig|Hok].
+    + exact (proj1 (proj2 (proj2 (Hnot Hbig)))).
+    + rewrite (Hfit Hok). exact Hok.
+  - intro Hbig. destruct (Hnot Hbig) as (E1 & _ & _ & E2 & _). auto.
 Qed.
